@@ -217,10 +217,10 @@ type sizes struct {
 }
 
 func main() {
-	facts, jsontext := false, false
+	facts, jsontext, enc := false, false, false
 	for i, a := range os.Args {
-		if a == "-facts" || a == "-jsontext" {
-			facts, jsontext = a == "-facts", a == "-jsontext"
+		if a == "-facts" || a == "-jsontext" || a == "-enc" {
+			facts, jsontext, enc = a == "-facts", a == "-jsontext", a == "-enc"
 			os.Args = append(os.Args[:i], os.Args[i+1:]...)
 			break
 		}
@@ -239,6 +239,14 @@ func main() {
 	defer o.Close()
 	if facts {
 		emitFacts(o)
+		return
+	}
+	if enc {
+		if cfg.Replay != "" {
+			replayEnc(o, hlib.ReplayLines(cfg.Replay))
+		} else {
+			emitEnc(o, cfg)
+		}
 		return
 	}
 	if cfg.Replay != "" {
